@@ -182,7 +182,7 @@ pub struct WorkerCtx {
     pub known: Known,
     /// crash journal: the case about to be evaluated is written here first, so that the parent can
     /// report it when the worker process dies (abort, segfault, stack overflow)
-    pub journal: Option<String>,
+    pub journal: Option<std::fs::File>,
 }
 impl WorkerCtx {
     /// share of `total` cases for this worker
@@ -365,8 +365,12 @@ where
     };
     let r = runner.run(&strat, |c| {
         if let Some(j) = &w.journal {
+            // written through a descriptor opened before any chroot
             if let Ok(js) = serde_json::to_string(&c) {
-                let _ = std::fs::write(j, format!("{{\"kind\":\"{}\",\"case\":{}}}", kind, js));
+                use std::os::unix::fs::FileExt;
+                let body = format!("{{\"kind\":\"{}\",\"case\":{}}}", kind, js);
+                let _ = j.set_len(0);
+                let _ = j.write_all_at(body.as_bytes(), 0);
             }
         }
         let (out, fails) = eval(&c);
@@ -696,7 +700,7 @@ pub fn run_worker(prop: &dyn Prop, args: &[String]) -> i32 {
         n,
         seed,
         known: Known::load(),
-        journal: Some(format!("{}.cur", args[4])),
+        journal: std::fs::OpenOptions::new().create(true).write(true).truncate(true).open(format!("{}.cur", args[4])).ok(),
     };
     let res = prop.worker(&w);
     let _ = std::fs::remove_file(format!("{}.cur", args[4]));
